@@ -65,6 +65,16 @@ pub fn install_panic_hook() {
     }));
 }
 
+/// A panic that happened on a node thread: remembered so that the simulator thread reports its
+/// original location (resume_unwind does not run the hook again).
+pub fn note_foreign_panic(loc: String, msg: String) {
+    LAST_PANIC.with(|p| *p.borrow_mut() = Some((loc, msg)));
+}
+
+pub fn set_quiet(q: bool) {
+    QUIET.with(|x| *x.borrow_mut() = q);
+}
+
 pub fn take_last_panic() -> Option<(String, String)> {
     LAST_PANIC.with(|p| p.borrow_mut().take())
 }
